@@ -58,7 +58,7 @@ PROFILE = gf.make_profile(
            "exitcycle": 0, "assign_section": 1},
     dep_index=50, perfect_nest=20, helpers=(0, 0), nstmts=(2, 5),
     array_intrinsics=False, functions=False, twin_loops=30,
-    scalar_loopvar=12)
+    scalar_loopvar=12, carried_loopvar=15)
 
 VARIANTS = ["pardo", "do+parallel", "region2"]
 SCHEDULES = ["static", "dynamic", "guided", "auto"]
@@ -363,6 +363,15 @@ def check(prog, src, lidx, variant, schedule):
             return "accepted", f"input {num + 1}: {sim.mismatch}", info
     info["max_trips"] = sim.max_trips
     info["tree"] = tree
+
+    def facts_of(name, is_scalar):
+        facts = var_facts(loop, name, is_scalar)
+        if loop2 is not None:
+            more = var_facts(loop2, name, is_scalar)
+            for key in ("reads_in_loop", "writes_in_loop"):
+                facts[key] += more[key]
+        return facts
+    info["facts_of"] = facts_of
     return "accepted", None, info
 
 
@@ -512,6 +521,15 @@ def run(ctx):
             msgs = real_run(prog, new_text, serial_text)
             ctx.label("real_openmp_runs")
             if msgs:
+                # the simulation skipped the input on which the real run
+                # differs (outside the interpreter's exact domain): give
+                # the classifiers the same facts about the variable
+                mat = re.search(r"variable (\w+):", msgs[0])
+                if mat:
+                    name = mat.group(1).lower()
+                    scalar = not any(v.name.lower() == name and v.dims
+                                     for v in prog.args)
+                    case["facts"] = info["facts_of"](name, scalar)
                 ctx.fail("real-openmp-mismatch", case, msgs[0])
 
     ctx.hyp(prop, cases(), max_examples=ctx.scale(2400, 60000),
@@ -525,4 +543,9 @@ def replay(case):
                               case["variant"], case["schedule"])
     if status == "accepted" and msg:
         return f"{info.get('directive')}: {msg}"
+    if status == "accepted" and case.get("bucket") == "real-openmp-mismatch":
+        msgs = real_run(prog, psy.write(info["tree"]),
+                        psy.write(psy.read(case["module"])))
+        if msgs:
+            return msgs[0]
     return None
